@@ -28,8 +28,28 @@ def _mentions(term, name):
     return False
 
 
+def _uses_strings(term):
+    seen = set()
+    stack = [term]
+    while stack:
+        t = stack.pop()
+        if t.get_id() in seen:
+            continue
+        seen.add(t.get_id())
+        if z3.is_quantifier(t):
+            stack.append(t.body())
+            continue
+        if t.sort().kind() == z3.Z3_SEQ_SORT:
+            return True
+        if z3.is_app(t):
+            stack.extend(t.children())
+    return False
+
+
 def check_vc(pc, goal, tier="quick", want_model=True, extra=()):
-    """returns dict(status=unsat|sat|unknown, backend, time, model)"""
+    """returns dict(status=unsat|sat|unknown, backend, time, model).
+    Portfolio: integer/array/heap VCs go to the z3 API first; VCs over strings go to cvc5 first
+    (z3's sequence solver times out on word equations that cvc5 --strings-exp decides in ms)."""
     b = BUDGET.get(tier, BUDGET["quick"])
     t0 = time.time()
     s = z3.Solver()
@@ -44,6 +64,17 @@ def check_vc(pc, goal, tier="quick", want_model=True, extra=()):
             s.add(l)
     for t in extra:
         s.add(t)
+    strings = _uses_strings(allt)
+    text = None
+    if strings:
+        try:
+            text = "(set-logic ALL)\n" + s.to_smt2()
+            res = _cli(text, b["cli_s"], only=("cvc5-cli",))
+            if res["status"] == "unsat":
+                res["time"] = time.time() - t0
+                return res
+        except Exception:
+            pass
     r = s.check()
     dt = time.time() - t0
     if r == z3.unsat:
@@ -53,17 +84,17 @@ def check_vc(pc, goal, tier="quick", want_model=True, extra=()):
                 "model": s.model() if want_model else None}
     # unknown: try the CLIs on the SMT-LIB text
     try:
-        text = "(set-logic ALL)\n" + s.to_smt2()
+        text = text or ("(set-logic ALL)\n" + s.to_smt2())
     except Exception:
         return {"status": "unknown", "backend": "z3-api", "time": dt, "reason": s.reason_unknown()}
-    res = _cli(text, b["cli_s"])
+    res = _cli(text, b["cli_s"], skip=("cvc5-cli",) if strings else ())
     res["time"] = time.time() - t0
     if res["status"] == "unknown":
         res["reason"] = s.reason_unknown()
     return res
 
 
-def _cli(text, timeout_s):
+def _cli(text, timeout_s, only=None, skip=()):
     d = tempfile.mkdtemp(prefix="pyvc_smt_")
     try:
         path = os.path.join(d, "q.smt2")
@@ -77,6 +108,8 @@ def _cli(text, timeout_s):
         if os.path.exists("/usr/bin/z3"):
             cands.append(("z3-4.8-cli", ["/usr/bin/z3", "-smt2", "-T:%d" % timeout_s, path]))
         for name, cmd in cands:
+            if (only is not None and name not in only) or name in skip:
+                continue
             try:
                 p = subprocess.run(cmd, capture_output=True, text=True, timeout=timeout_s + 10)
             except subprocess.TimeoutExpired:
